@@ -339,6 +339,20 @@ void Models::do_op(const J &op)
 		}
 		m->do_simple(act[0], args, sp);
 	}
+	else if (act == "rawrunt") {
+		// a raw frame that names this session but carries fewer bytes than its kind needs (header only, half a hash, ...), from a
+		// third party: whatever the server does may depend only on these bytes, not on what the previous datagram left behind
+		Rng hr((uint64_t)op.geti("key"), "rawrunt");
+		int cmd = (int)hr.range(1, 3);
+		Bytes pl;
+		if (cmd == 1) { pl = m->login_hash(m->seed + 1); pl.resize((size_t)hr.range(0, 15)); }
+		else if (cmd == 2) { pl = z_compress(hr.bytes((size_t)hr.range(30, 200))); pl.resize((size_t)hr.range(0, 8)); }
+		Bytes f = raw_frame(cmd, m->userid, pl);
+		if (hr.chance(0.2)) f.resize(3);
+		Addr dst = w->S.hosts[w->srv_host].ip4; dst.port = 53;
+		if (sp) w->S.inject(*sp, m->host, dst, f); else w->S.send_from(m->sock, dst, f);
+		w->probes["mc.raw_runt"]++;
+	}
 	else if (act == "hostile") {
 		// an insider: logged in with the right password, then sends generated hostile commands from its own address, mostly
 		// with its own user id (so that they pass the server's address check)
